@@ -75,8 +75,11 @@ DownTarget(script, x, mode) == { nm \in Targets(script) : x \in Upstream(script,
 \* ---- goals ------------------------------------------------------------------
 Explicit(script) == UNION { ToSet(script[i].deps) : i \in { j \in 1..Len(script) : script[j].kind \in {"default", "install"} } }
 Tested(script) == UNION { ToSet(script[i].deps) : i \in { j \in 1..Len(script) : script[j].kind = "test" } }
+\* (only the program a test runs - the first word of its command - leaves the default set; further
+\*  built files on the command line are members of `tests` but stay defaults)
+TestedPrimary(script) == { script[i].deps[1] : i \in { j \in 1..Len(script) : script[j].kind = "test" } }
 DefaultSet(script) == IF Explicit(script) # {} THEN Explicit(script)
-                      ELSE { nm \in Targets(script) : Linked(Decl(script, nm)) /\ nm \notin Tested(script) }
+                      ELSE { nm \in Targets(script) : Linked(Decl(script, nm)) /\ nm \notin TestedPrimary(script) }
 GoalSet(script, goal) == CASE goal = "all" -> DefaultSet(script)
                            [] goal = "tests" -> Tested(script)
                            [] OTHER -> {goal}
